@@ -175,7 +175,8 @@ def r3(ctx: Ctx) -> None:
     loops = [l for l in g.nodes if l.kind == "loop" and isinstance(l.ast, ast.For)]
     ok = bool(loops) and "range(" in norm_text(loops[0].ast.iter) and "max_retries" in norm_text(loops[0].ast.iter)  # type: ignore[union-attr]
     ctx.ob("C20.R3", rb, "attempts are bounded by max_retries", loops[0] if loops else None, ok, "for attempt in range(self.max_retries + 1)")
-    exh = [b for b in g.nodes if b.kind == "branch" and "attempt < self.max_retries" in b.text and in_handler(b, hn.ast)]  # type: ignore[arg-type]
+    exh = [b for b in g.nodes if b.kind == "branch" and isinstance(b.ast, ast.Compare) and isinstance(b.ast.ops[0], ast.Lt)
+           and "max_retries" in norm_text(b.ast.comparators[0]) and in_handler(b, hn.ast)]  # type: ignore[arg-type]
     ok = False
     for b in exh:
         fl = edge_target(g, b, "false")
@@ -300,7 +301,8 @@ def r6(ctx: Ctx) -> None:
     if sk is None:
         raise AnalysisError("S3RangeFile.seek vanished")
     g = ctx.cfg(sk)
-    neg = [b for b in g.nodes if b.kind == "branch" and isinstance(b.ast, ast.Compare) and "< 0" in b.text]
+    neg = [b for b in g.nodes if b.kind == "branch" and isinstance(b.ast, ast.Compare) and isinstance(b.ast.ops[0], ast.Lt)
+           and isinstance(b.ast.comparators[0], ast.Constant) and b.ast.comparators[0].value == 0]
     ok = False
     for b in neg:
         t = edge_target(g, b, "true")
@@ -311,7 +313,9 @@ def r6(ctx: Ctx) -> None:
     sets = [n for n in g.nodes if n.kind == "stmt" and isinstance(n.ast, ast.Assign) and norm_text(n.ast.targets[0]) == "self._pos"]
     ctx.ob("C20.R6", sk, "negative position raises before the position is stored", neg[0] if neg else None,
            ok and bool(sets) and all(any(b.id in dom[s.id] for b in neg) for s in sets), "a negative position is an error")
-    news = [n for n in g.nodes if n.kind == "stmt" and isinstance(n.ast, ast.Assign) and norm_text(n.ast.targets[0]) == "new"]
+    posvars = {n.ast.value.id for n in g.nodes if n.kind == "stmt" and isinstance(n.ast, ast.Assign)
+               and norm_text(n.ast.targets[0]) == "self._pos" and isinstance(n.ast.value, ast.Name)}
+    news = [n for n in g.nodes if n.kind == "stmt" and isinstance(n.ast, ast.Assign) and norm_text(n.ast.targets[0]) in posvars]
     plain = {"offset", "self._pos + offset", "self._size + offset", "offset + self._pos", "offset + self._size"}
     odd = [n for n in news if norm_text(n.ast.value) not in plain]  # type: ignore[union-attr]
     ctx.ob("C20.R6", sk, "target position is plain arithmetic (no clamping that hides a negative position)", odd[0] if odd else (news[0] if news else None),
